@@ -10,7 +10,7 @@ import vlib
 from vlib import Undecided, VERIF, REPO, Scratch, sh
 
 BUILD_BUDGET = 240
-HARNESS_TIMEOUT = {"quick": 240, "thorough": 1500}
+HARNESS_TIMEOUT = {"quick": 420, "thorough": 1500}
 
 
 # ------------------------------------------------------------------------------------------------
@@ -153,7 +153,7 @@ def _run_group(sel, known, tier, prop, attrs):
             s, list(hpaths.keys()), timeout=budget,
             extra=["-Z", "unstable-options", "--harness-timeout", f"{htimeout}s"])
         out["cmds"].append(cmd.replace(str(s.path), "<scratch copy of /repo>"))
-        log = VERIF / "evidence" / "logs"
+        log = vlib.out_dir("evidence") / "logs"
         log.mkdir(parents=True, exist_ok=True)
         (log / f"{prop}.{tier}.kani{'.attr' if attrs else ''}.log").write_text(text.replace(str(s.path), "<scratch>"))
         if not re.search(r"Compiling wax v\S+ \(" + re.escape(str(s.path)) + r"\)", text):
@@ -218,6 +218,29 @@ def _run_group(sel, known, tier, prop, attrs):
                         out["known_hits"].append(hit)
                     continue
             failed_for_playback.append((hp, h, ob, role, region, r))
+        # thorough tier: every discharged complete obligation that was cheap enough is re-solved with a
+        # second SAT back end (kissat); a disagreement makes the obligation UNDECIDED, never a violation
+        if tier == "thorough" and os.environ.get("VERIF_SECOND_SOLVER", "1") != "0":
+            again = {hp: hv for hp, hv in hpaths.items()
+                     if any(r["harness"] == hv[0] and r["status"] == "DISCHARGED" and r["kind"] == "complete" and (r["solver_s"] or 0) < 120 for r in out["results"])}
+            if again:
+                rc2, text2, wall2, cmd2 = vlib.kani_build_and_run(
+                    s, list(again.keys()), timeout=BUILD_BUDGET + 600 * (1 + len(again) // max(1, vlib.JOBS)),
+                    extra=["-Z", "unstable-options", "--harness-timeout", "600s", "--solver", "kissat"])
+                out["cmds"].append(cmd2.replace(str(s.path), "<scratch copy of /repo>"))
+                (log / f"{prop}.{tier}.kani{'.attr' if attrs else ''}.kissat.log").write_text(text2.replace(str(s.path), "<scratch>"))
+                parsed2 = parse_terse(text2)
+                for hp, (h, (ob, role, region)) in again.items():
+                    r = [x for x in out["results"] if x["harness"] == h][0]
+                    p2 = parsed2.get(hp)
+                    if p2 is None or p2["raw_status"] is None:
+                        r["second_solver"] = "kissat: no verdict"
+                    elif p2["raw_status"] == "SUCCESSFUL":
+                        r["second_solver"] = f"kissat: SUCCESSFUL in {p2['solver_s']}s"
+                    else:
+                        r["second_solver"] = "kissat: FAILED"
+                        r["status"] = "UNDECIDED"
+                        out["undecided"].append(f"{ob.id} ({h}): the two SAT back ends disagree (cadical: SUCCESSFUL, kissat: FAILED)")
         # counterexamples + native replay for genuine failures
         for hp, h, ob, role, region, r in failed_for_playback:
             rp = make_replay(s, hp, h, ob, role, region, r, prop)
@@ -318,7 +341,13 @@ def make_replay(scratch, hp, h, ob, role, region, r, prop):
             value_sets.append(decode(ob.args, vals))
         except ValueError as e:
             rec["playback_note"] = f"could not map playback values onto the body arguments: {e}"
-    if value_sets:
+    if value_sets and not ob.replay:
+        # the harness abstracts an external engine by a verifier-only stub (e.g. the regex oracle): the
+        # body cannot run natively; the verifier's inputs are recorded, the replay is not attempted
+        rec["inputs"] = {n: v for (n, _), v in zip(ob.args, value_sets[0])}
+        rec["input_order"] = [n for n, _ in ob.args]
+        rec["playback_note"] = "native replay not possible for this obligation (verifier-only stub of an external engine); inputs are the verifier's"
+    elif value_sets:
         nr = native_replay(scratch, ob, value_sets)
         rec["native_replay"] = nr
         rec["has_input"] = nr["reproduced"]
@@ -330,7 +359,7 @@ def make_replay(scratch, hp, h, ob, role, region, r, prop):
     else:
         rec.setdefault("playback_note", "Kani printed no concrete values for the failed check")
         rec["verifier_output"].append(ptext[-1200:].replace(str(scratch.path), "<scratch>"))
-    d = VERIF / "replays"
+    d = vlib.out_dir("replays")
     d.mkdir(exist_ok=True)
     p = d / f"{ob.id}.json"
     rec["replay"] = str(p)
